@@ -45,3 +45,9 @@ package main
 // indefinitely"): when configured, the handler the server runs must enforce it.
 //@   ensures the_configured_handler_timeout_bounds_requests@C03: cfg.Server.Timeouts.Handler > 0 ==> handlerBound(ptr(result.Handler)) == cfg.Server.Timeouts.Handler * 1000000000
 //@   ensures configured_values_used: cfg.Server.Timeouts.Read > 0 ==> result.ReadTimeout == cfg.Server.Timeouts.Read * 1000000000
+
+// C18: with a validated configuration the metrics server's routes can be registered (ServeMux panics on a path
+// registered twice)
+//@ func setupMetricsServer
+//@   props C18
+//@   requires cfg != nil && lb != nil && lb.metricsCollector != nil && docMetrics(cfg)
